@@ -761,3 +761,59 @@ Proof.
   destruct (job_pipelined_now E s j) eqn:Hp; intros [= <- <-] Hne; [|congruence].
   apply gang_pipelined_roles, (pipelined_now_gang E); assumption.
 Qed.
+
+(* ------------------------------------------------------------------ *)
+(* Third audit E13: what a victim returned by the drf vote MEANS, tied to drf_vote itself: the candidate
+   list splits at the victim, and the preemptor job's share (with the preemptor) is below, or within
+   shareDelta of, the share of what the victim's job holds (handler ledger) minus the requests of ALL
+   candidates of that job up to and including the victim - whether those were returned or not. *)
+Definition drf_left (s : sess) (seen : list task) (j : positive) : res :=
+  fold_left (fun a x => sub a (t_req x)) (filter (fun x => t_job x = j) seen) (default empty_res (hshare s !! j)).
+
+Lemma drf_go_tr_meaning eps s ls l : forall seen al c left,
+  (forall j, default (default empty_res (hshare s !! j)) (al !! j) = drf_left s seen j) ->
+  (c, left) ∈ drf_go_tr eps s ls al l ->
+  exists pre post, l = pre ++ c :: post /\ jobs s !! t_job c <> None /\
+    left = drf_left s (seen ++ pre ++ [c]) (t_job c) /\
+    drf_lets_go ls (dom_share eps left (total_res s)) = true.
+Proof.
+  induction l as [|c0 r IH]; intros seen al c left Inv; simpl; [intros H; inversion H|].
+  destruct (jobs s !! t_job c0) as [j0|] eqn:Hj0.
+  - assert (Inv' : forall j, default (default empty_res (hshare s !! j))
+                (<[t_job c0 := sub (default (default empty_res (hshare s !! t_job c0)) (al !! t_job c0)) (t_req c0)]> al !! j)
+              = drf_left s (seen ++ [c0]) j).
+    { intros j. unfold drf_left. rewrite filter_app, fold_left_app.
+      destruct (decide (t_job c0 = j)) as [<-|Hne].
+      - rewrite lookup_insert. rewrite filter_cons_True by reflexivity. rewrite filter_nil. simpl.
+        rewrite Inv. reflexivity.
+      - rewrite lookup_insert_ne by exact Hne. rewrite filter_cons_False by exact Hne. rewrite filter_nil. simpl.
+        apply Inv. }
+    assert (Tail : (c, left) ∈ drf_go_tr eps s ls
+              (<[t_job c0 := sub (default (default empty_res (hshare s !! t_job c0)) (al !! t_job c0)) (t_req c0)]> al) r ->
+            exists pre post, c0 :: r = pre ++ c :: post /\ jobs s !! t_job c <> None /\
+              left = drf_left s (seen ++ pre ++ [c]) (t_job c) /\
+              drf_lets_go ls (dom_share eps left (total_res s)) = true).
+    { intros H. destruct (IH _ _ _ _ Inv' H) as (pre & post & -> & Hk & Hl & Hd).
+      exists (c0 :: pre), post. split; [reflexivity|]. split; [exact Hk|]. split; [|exact Hd].
+      rewrite Hl. f_equal. rewrite <- app_assoc. reflexivity. }
+    destruct (drf_lets_go ls (dom_share eps (sub _ _) _)) eqn:Hd; [|exact Tail].
+    intros H. apply elem_of_cons in H as [[= -> ->]|H]; [|exact (Tail H)].
+    exists [], r. split; [reflexivity|]. split; [rewrite Hj0; discriminate|]. split; [|exact Hd].
+    simpl. rewrite <- Inv'. rewrite lookup_insert. reflexivity.
+  - intros H. destruct (IH _ _ _ _ Inv H) as (pre & post & -> & Hk & Hl & Hd).
+    exists (c0 :: pre), post. split; [reflexivity|]. split; [exact Hk|]. split; [|exact Hd].
+    rewrite Hl. unfold drf_left. f_equal. rewrite !filter_app.
+    rewrite (filter_cons_False _ c0); [reflexivity|]. intros Heq. rewrite Heq in Hj0. contradiction.
+Qed.
+
+Lemma drf_vote_victim_meaning eps s p l c :
+  c ∈ drf_vote eps s p l ->
+  exists pre post, l = pre ++ c :: post /\
+    drf_lets_go (drf_ls eps s p) (dom_share eps (drf_left s (pre ++ [c]) (t_job c)) (total_res s)) = true.
+Proof.
+  unfold drf_vote. destruct (jobs s !! t_job p); [|intros H; inversion H].
+  intros H. apply elem_of_list_fmap in H as ([c' left] & -> & H).
+  apply (drf_go_tr_meaning eps s _ l []) in H as (pre & post & Hl & _ & Hleft & Hd).
+  - exists pre, post. split; [exact Hl|]. rewrite Hleft in Hd. exact Hd.
+  - intros j'. rewrite lookup_empty. reflexivity.
+Qed.
